@@ -2,6 +2,7 @@
 import json
 import logging
 from types import SimpleNamespace
+from fractions import Fraction
 
 import numpy as np
 import z3
@@ -35,6 +36,7 @@ def describe(rep):
              StepSizeLimiter.get_new_step_size, StepSizeSlopeLimiter.get_new_step_size, C.run, C.restart_block, C.it_check)
     from pySDC.implementations.convergence_controller_classes import adaptivity as ad
 
+    rep.func(ad.Adaptivity.dependencies, ad.AdaptivityBase.dependencies, BasicRestartingNonMPI.dependencies, C.run, C.restart_block)
     rep.func(ad.AdaptivityRK.get_new_step_size, ad.AdaptivityResidual.get_new_step_size, ad.AdaptivityForConvergedCollocationProblems.determine_restart,
              ad.AdaptivityForConvergedCollocationProblems.trigger_restart_upon_nonconvergence, ad.AdaptivityPolynomialError.get_new_step_size,
              ad.AdaptivityExtrapolationWithinQ.get_new_step_size, ad.AdaptivityCollocation.get_new_step_size, ad.AdaptivityCollocation.determine_restart)
@@ -50,11 +52,16 @@ def describe(rep):
         'AdaptivityExtrapolationWithinQ, AdaptivityCollocation): real get_new_step_size + determine_restart on symbolic residual, tolerances, estimates, '
         'previous residual, reduction factor; a restarted step gets a smaller step, a converged step that is kept has an estimate within the tolerance.'
     )
+    rep.explanation += (' (d) adaptive runs: the real controller with the real Adaptivity and everything its dependencies load (EstimateEmbeddedError with the numerical estimate '
+                        'replaced by a fresh positive real per call, StepSizeLimiter, BasicRestartingNonMPI, SpreadStepSizesBlockwiseNonMPI); t0, dt, Tend, dt_min, dt_max, the start value and one '
+                        'estimate per attempt are symbolic reals, the time step is an uninterpreted function of (value, time, step size); every feasible accept / reject / clamp pattern is executed; per path: '
+                        'tiling, exact chaining, accepted steps within the tolerance unless the budget is used up, proposal = beta dt (tol/err)^(1/order) clipped to [dt_min, dt_max], one step size per block, '
+                        'retry from the first rejected step with a smaller step unless dt_min binds; models are replayed on the float classes with the estimates of the model.')
     rep.rule = 'state = explored path (restart-request pattern / branch pattern of the controllers); transition = branch decision'
     rep.assume('restart requests are injected by a harness convergence controller (control order 90) when iter >= maxiter',
                'fixed exactly representable dt in (b) so that accepted start times are exact', 'beta <= 1 (beta < 1 for the strict retry-with-smaller-step clause), e_est > 0, e_tol > 0 in (c)', 'factor_if_not_converged > 1, residual_max_tol > restol (sensible configuration)')
     rep.out_of_scope('error estimators themselves (numerical quantities)', 'EstimateContractionFactor (its outputs are symbolic inputs of the avoid_restarts rule), StepSizeRounding (rounds by powers of ten through log10), interpolation between restarts beyond the listed histories', 'MPI flavours',
-                     'NP > 4, more than 6 steps, max_restarts > 3 in (b)')
+                     'NP > 4, more than 6 steps, max_restarts > 3 in (b)', '(d): at most N = 2..3 accepted steps (Tend - t0 <= N dt_min), order 1 (2 in the thorough tier), beta = 9/10, e_tol = 1, estimates > 1/1000')
 
 
 def tasks(tier, seed):
@@ -77,6 +84,8 @@ def tasks(tier, seed):
     T.append(('adapt_avoid',))
     for which in ('poly', 'extra', 'coll'):
         T.append(('adapt_conv', which))
+    for a in ([(1, 1, True, 2, 1), (1, 1, False, 2, 1), (2, 1, True, 2, 1)] if quick else [(1, 1, True, 2, 1), (1, 1, False, 2, 1), (2, 1, True, 2, 1), (1, 2, True, 2, 1), (2, 1, False, 3, 1), (1, 1, True, 3, 1), (3, 1, True, 3, 1), (1, 1, True, 2, 2)]):
+        T.append(('adrun',) + a)
     hist = [(1, 2, 3, False, True), (2, 1, 4, False, True), (2, 2, 4, False, True), (2, 2, 4, True, True), (2, 1, 4, False, False),
             (3, 1, 4, False, True), (3, 2, 5, False, True), (3, 2, 4, True, True)] if quick else \
            [(1, 3, 4, False, True), (2, 2, 5, False, True), (2, 3, 5, True, True), (2, 2, 5, False, False), (3, 2, 6, False, True),
@@ -123,6 +132,8 @@ def run_task(rep, task):
         adapt_avoid_case(rep)
     elif task[0] == 'adapt_conv':
         adapt_conv_case(rep, task[1])
+    elif task[0] == 'adrun':
+        adrun_case(rep, *task[1:])
     elif task[0] == 'hist':
         hist_case(rep, *task[1:7], shrink=(task[7] if len(task) > 7 else False))
 
@@ -1087,6 +1098,266 @@ def hist_case(rep, NP, MAXR, NSTEPS, FIRST, CRASH, prefix, pid=PID, clauses=None
         rep.sample({'config': name, 'prefix': prefix, 'paths': len(paths), 'a_history': {'decisions': p.decisions, 'status': p.result['status'], 'post_steps': p.result['log']}})
 
 
+# ------------------------------------------------------------------------------------------------ (d) adaptive runs: real Adaptivity in the real controller
+
+AD = {'log': [], 'n': 0, 'vars': [], 'floats': None}
+G3 = z3.Function('G3', z3.RealSort(), z3.RealSort(), z3.RealSort(), z3.RealSort())
+AD_BETA = '9/10'
+AD_EMIN = '1/1000'
+
+
+def gfloat(u, t, dt):
+    return 0.5 * u + 0.25 * t + 2.0 * dt + 0.125
+
+
+def _ad_classes():
+    from harness import c06
+    from pySDC.implementations.convergence_controller_classes.estimate_embedded_error import EstimateEmbeddedError
+
+    class AdSolver(c06.DirectSolver):
+        """direct-solver probe whose end value is an uninterpreted function of start value, start time AND step size"""
+
+        def compute_end_point(self):
+            L = self.level
+            e = L.prob.dtype_u(L.prob.init)
+            if isinstance(L.u[0][0], float) or isinstance(L.u[0][0], np.floating):
+                e[0] = gfloat(float(L.u[0][0]), float(L.time), float(L.dt))
+            else:
+                e[0] = SymReal(G3(R(L.u[0][0]), R(L.time), R(L.dt)))
+            L.uend = e
+
+    class SymEstimate(EstimateEmbeddedError):
+        """the real estimator class with the numerical estimate replaced by a fresh positive real (one per call)"""
+
+        def estimate_embedded_error_serial(self, L):
+            k = AD['n']
+            AD['n'] += 1
+            if AD['floats'] is not None:
+                return AD['floats'][k] if k < len(AD['floats']) else 0.5
+            v = z3.Real(f'e{k}')
+            AD['vars'].append(v)
+            Ctx.cur.add(v > z3.RealVal(AD_EMIN))
+            return SymReal(v)
+
+    class RecA(Hooks):
+        def post_step(self, step, level_number):
+            super().post_step(step, level_number)
+            L = step.levels[0]
+            AD['log'].append(dict(slot=int(step.status.slot), t=L.time, dt=L.dt, u0=L.u[0][0], ue=L.uend[0], rs=bool(step.status.restart), nr=int(step.status.restarts_in_a_row),
+                                  e=L.status.error_embedded_estimate, dtn=L.status.dt_new))
+
+    return AdSolver, SymEstimate, RecA
+
+
+def adrun(NP, MAXR, CRASH, order, t0, dt, Tend, dmin, dmax, x, floats=None):
+    """the real controller_nonMPI.run with the real Adaptivity (and everything its dependencies load: embedded estimator, limiter, restarting, spreading)"""
+    from harness import c06
+    from pySDC.implementations.convergence_controller_classes.adaptivity import Adaptivity
+    from pySDC.implementations.convergence_controller_classes.estimate_embedded_error import EstimateEmbeddedError
+
+    AdSolver, SymEstimate, RecA = _ad_classes()
+    AD['log'] = []
+    AD['n'] = 0
+    AD['vars'] = []
+    AD['floats'] = floats
+    sym = floats is None
+    _PowReal.ORDER[0] = order if sym else None
+    orig = EstimateEmbeddedError.__dict__['get_implementation']
+    EstimateEmbeddedError.get_implementation = classmethod(lambda cls, flavor='standard', useMPI=False: SymEstimate)
+    try:
+        wrap = (lambda v: SymReal(v)) if sym else float
+        d = dict(problem_class=c06.TokProb, problem_params={'dtype': np.dtype('O') if sym else np.dtype('float64')}, sweeper_class=AdSolver,
+                 sweeper_params={'num_nodes': 1, 'quad_type': 'RADAU-RIGHT'}, level_params={'dt': wrap(dt), 'restol': -1.0}, step_params={'maxiter': order},
+                 convergence_controllers={Adaptivity: {'e_tol': _PowReal(z3.RealVal(1)) if sym else 1.0, 'beta': SymReal(z3.RealVal(AD_BETA)) if sym else 0.9, 'dt_min': wrap(dmin), 'dt_max': wrap(dmax)},
+                                          BasicRestartingNonMPI: {'max_restarts': MAXR, 'crash_after_max_restarts': CRASH}})
+        ctl = controller_nonMPI(NP, {'logger_level': 50, 'dump_setup': False, 'hook_class': [RecA], 'mssdc_jac': False}, d)
+        P = ctl.MS[0].levels[0].prob
+        u0 = P.dtype_u(P.init)
+        u0[0] = wrap(x)
+        try:
+            u, stats = ctl.run(u0, wrap(t0), wrap(Tend))
+        except ConvergenceError:
+            return dict(status='crash', log=list(AD['log']), u=None, nest=AD['n'])
+        return dict(status='ok', log=list(AD['log']), u=u[0], nest=AD['n'])
+    finally:
+        EstimateEmbeddedError.get_implementation = orig
+        _PowReal.ORDER[0] = None
+
+
+class _ZOps:
+    And, Or, Not = staticmethod(lambda *a: z3.And(*a) if a else z3.BoolVal(True)), staticmethod(lambda *a: z3.Or(*a) if a else z3.BoolVal(False)), staticmethod(z3.Not)
+    eq = staticmethod(lambda a, b: a == b)
+    lt = staticmethod(lambda a, b: a < b)
+    ge = staticmethod(lambda a, b: a >= b)
+    val = staticmethod(lambda a: R(a) if not isinstance(a, (int, float)) else rv(a))
+    G = staticmethod(lambda u, t, d_: G3(u, t, d_))
+    true = z3.BoolVal(True)
+
+
+class _FOps:
+    And, Or, Not = staticmethod(lambda *a: all(a)), staticmethod(lambda *a: any(a)), staticmethod(lambda a: not a)
+    eq = staticmethod(lambda a, b: abs(a - b) <= 1e-9 * (1 + abs(a) + abs(b)))
+    lt = staticmethod(lambda a, b: a < b - 1e-12 * (1 + abs(b)))
+    ge = staticmethod(lambda a, b: a >= b - 1e-9 * (1 + abs(b)))
+    val = staticmethod(float)
+    G = staticmethod(gfloat)
+    true = True
+
+
+def adrun_clauses(r, O, NP, MAXR, CRASH, order, t0, dt, Tend, dmin, dmax, x, pvars=None):
+    """clauses of C09 / C06 on one run (z3 goals with O = _ZOps, booleans on floats with O = _FOps).  pvars: per log entry the positive root p with
+    p^order * e == (beta dt)^order * e_tol (a fresh variable defined by an assumption in the symbolic case, the float root otherwise)"""
+    log = [dict(l, t=O.val(l['t']), dt=O.val(l['dt']), u0=O.val(l['u0']), ue=O.val(l['ue']), e=(O.val(l['e']) if l['e'] is not None else None),
+                dtn=(O.val(l['dtn']) if l['dtn'] is not None else None)) for l in r['log']]
+    out = {}
+    blocks, cur = [], []
+    for l in log:
+        if cur and l['slot'] <= cur[-1]['slot']:
+            blocks.append(cur)
+            cur = []
+        cur.append(l)
+    if cur:
+        blocks.append(cur)
+    acc = [l for l in log if not l['rs']]
+    e10 = O.val(float(10 * np.finfo(float).eps))
+    if acc:
+        til = [O.eq(acc[0]['t'], t0)] + [O.eq(b['t'], a['t'] + a['dt']) for a, b in zip(acc, acc[1:])]
+        if r['status'] == 'ok':
+            til.append(O.ge(acc[-1]['t'] + acc[-1]['dt'], Tend - e10))
+        out['tiling'] = O.And(*til)
+        ch = [O.eq(acc[0]['u0'], x)] + [O.eq(b['u0'], a['ue']) for a, b in zip(acc, acc[1:])] + [O.eq(a['ue'], O.G(a['u0'], a['t'], a['dt'])) for a in acc]
+        if r['status'] == 'ok':
+            ch.append(O.eq(O.val(r['u']), acc[-1]['ue']))
+        out['chaining'] = O.And(*ch)
+        # an accepted step has an estimate below the tolerance unless its retry budget was used up (and the run is configured to move on)
+        one_ = 1.0 if O is _FOps else rv(1)
+        # (split by call site: a later step of a block whose budget counter is used up while the run is configured to raise an error is a recorded finding)
+        late = lambda a: a['slot'] > 0 and a['nr'] >= MAXR and CRASH
+        out['accepted-within-tolerance'] = O.And(*[O.lt(a['e'], one_) for a in acc if a['e'] is not None and not (a['nr'] >= MAXR and not CRASH) and not late(a)])
+        out['accepted-within-tolerance/later-step-when-budget-is-used-up-and-crash-configured'] = O.And(*[O.lt(a['e'], one_) for a in acc if a['e'] is not None and late(a)])
+    elif r['status'] == 'ok':
+        out['tiling'] = O.Not(O.true)
+    out['retry-budget'] = O.true if all((not l['rs']) or l['nr'] < MAXR or MAXR == 0 and False for l in log) else O.Not(O.true)
+    if r['status'] == 'crash' and not CRASH:
+        out['unexpected-error'] = O.Not(O.true)
+    # proposal = beta dt (tol/err)^(1/order) clipped to [dt_min, dt_max]
+    if pvars is not None:
+        pr = []
+        for l, pv in zip(log, pvars):
+            if l['dtn'] is not None and pv is not None:
+                pr.append(O.Or(O.And(O.lt(pv, dmin), O.eq(l['dtn'], dmin)), O.And(O.lt(dmax, pv), O.eq(l['dtn'], dmax)), O.And(O.ge(pv, dmin), O.ge(dmax, pv), O.eq(l['dtn'], pv))))
+        out['proposal-formula-and-clip'] = O.And(*pr)
+    # per block: one step size; the block after a rejected one starts at the first rejected step (time, value) with a smaller step unless dt_min binds
+    one, rp = [], []
+    for b, nb in zip(blocks, blocks[1:] + [None]):
+        one += [O.eq(l['dt'], b[0]['dt']) for l in b[1:]]
+        rst = [l for l in b if l['rs']]
+        if rst and nb is not None:
+            f = rst[0]
+            rp.append(O.And(O.eq(nb[0]['t'], f['t']), O.eq(nb[0]['u0'], f['u0']), O.Or(O.lt(nb[0]['dt'], f['dt']), O.eq(nb[0]['dt'], dmin))))
+            k = b.index(f)
+            if not all(l['rs'] for l in b[k:]):
+                rp.append(O.Not(O.true))
+    out['one-step-size-per-block'] = O.And(*one)
+    out['restart-point-and-smaller-retry'] = O.And(*rp)
+    return out
+
+
+def adrun_case(rep, NP, MAXR, CRASH, N, order, pid=PID, clauses=None):
+    """(d) adaptive runs: the real controller with the real Adaptivity, EstimateEmbeddedError (estimate replaced by a fresh positive real per call),
+    StepSizeLimiter, BasicRestartingNonMPI and SpreadStepSizesBlockwiseNonMPI as the real dependencies load them; t0, dt, Tend, dt_min, dt_max symbolic
+    reals; every feasible sequence of accept / reject / clamp decisions is a path; the clauses are decided per path over all estimate sequences"""
+    name = f'adrun/NP{NP}/maxr{MAXR}/crash{int(CRASH)}/N<={N}/order{order}'
+    t0, dt, Tend, dmin, dmax, x = z3.Reals('t0 dt Tend dmin dmax x')
+    from harness import c06
+
+    pre = [dt > 0, dmin > 0, dmax >= dmin, dt >= dmin, dt <= dmax, Tend - rv(c06.EPS10) > t0, t0 + N * dmin >= Tend]
+
+    def fn(c):
+        for a in pre:
+            c.add(a)
+        r = adrun(NP, MAXR, CRASH, order, t0, dt, Tend, dmin, dmax, x)
+        r['evars'] = list(AD['vars'])
+        return r
+
+    paths = explore(fn, max_paths=20000)
+    rep.paths += len(paths)
+    rep.decisions += sum(len(p.decisions) for p in paths)
+    beta = rv(Fraction(9, 10))
+    seen = set()
+    for i, p in enumerate(paths):
+        r = p.result
+        A = pre + list(p.assume) + list(p.pc)
+        # the positive root p_k with p_k^order * e_k == (beta dt_k)^order (e_tol = 1), one per log entry that carries a proposal
+        pv, defs = [], []
+        for k, l in enumerate(r['log']):
+            if l['dtn'] is None or l['e'] is None:
+                pv.append(None)
+                continue
+            v = z3.Real(f'prop!{k}')
+            bd = beta * R(l['dt'])
+            lhs, rhs = R(l['e']), z3.RealVal(1)
+            for _ in range(order):
+                lhs, rhs = lhs * v, rhs * bd
+            defs.append(z3.And(v > 0, lhs == rhs))
+            pv.append(v)
+        goals = adrun_clauses(r, _ZOps, NP, MAXR, CRASH, order, t0, dt, Tend, dmin, dmax, x, pvars=pv)
+        for cl, g in goals.items():
+            if clauses is not None and cl not in clauses:
+                continue
+            res, m = prove(g, A + defs, name=f'{name}/path{i}:{cl}')
+            rep.ob(f'{name}/path{i}:{cl}', res)
+            if res == 'sat' and cl not in seen:
+                seen.add(cl)
+                rep.replayed += 1
+                vals = {str(v): float(model_value(m, v)) for v in (t0, dt, Tend, dmin, dmax, x)}
+                es = [float(model_value(m, v)) for v in r['evars']]
+                bad = adrun_float(NP, MAXR, CRASH, order, vals, es)
+                if clauses is not None:
+                    bad = {b for b in bad if b in clauses}
+                if cl in bad or bad:
+                    rep.violation(f'{pid}/adaptive-run/{cl if cl in bad else sorted(bad)[0]}', f'{name}: clause(s) {sorted(bad)} violated on the real float run for {vals}, estimates {es}',
+                                  {'task': ['adrun', NP, MAXR, CRASH, N, order], 'vals': vals, 'estimates': es, 'violated': sorted(bad)})
+                else:
+                    rep.unreproduced(f'{name}/path{i}:{cl}', {'vals': vals, 'estimates': es})
+    ok = [p for p in paths if p.result['status'] == 'ok']
+    rep.vac(f'{name}:accepted-and-rejected-steps-seen', 'sat' if any(any(l['rs'] for l in p.result['log']) for p in ok) and any(not any(l['rs'] for l in p.result['log']) for p in ok) else 'unsat', 'sat')
+    # sensitivity: the proposal clause with the safety factor left out of the specification must be refuted on some path
+    found = 'unsat'
+    for p in ok[:40]:
+        r = p.result
+        pv, defs = [], []
+        for k, l in enumerate(r['log']):
+            if l['dtn'] is None or l['e'] is None:
+                pv.append(None)
+                continue
+            v = z3.Real(f'prop!{k}')
+            lhs, rhs = R(l['e']), z3.RealVal(1)
+            for _ in range(order):
+                lhs, rhs = lhs * v, rhs * R(l['dt'])
+            defs.append(z3.And(v > 0, lhs == rhs))
+            pv.append(v)
+        g = adrun_clauses(r, _ZOps, NP, MAXR, CRASH, order, t0, dt, Tend, dmin, dmax, x, pvars=pv)['proposal-formula-and-clip']
+        res, _ = prove(g, pre + list(p.assume) + list(p.pc) + defs, name=f'{name}:mutated', kind='vacuity')
+        if res == 'sat':
+            found = 'sat'
+            break
+    rep.vac(f'{name}:formula-without-safety-factor-refuted', found, 'sat')
+    rep.extra['adaptive_runs'] = rep.extra.get('adaptive_runs', []) + [{'config': name, 'paths': len(paths), 'crashes': sum(1 for p in paths if p.result['status'] == 'crash'),
+                                                                         'max_attempts': max(len(p.result['log']) for p in paths)}]
+    rep.sample({'case': name, 'paths': len(paths), 'free_variables': 't0, dt, Tend, dt_min, dt_max, start value, one error estimate per attempt', 'a_path': [(l['slot'], str(l['t'])[:40], str(l['dt'])[:40], l['rs']) for l in paths[len(paths) // 2].result['log']]}, limit=3)
+
+
+def adrun_float(NP, MAXR, CRASH, order, vals, es):
+    """the same run on plain floats with the estimates of the model; returns the set of violated clauses"""
+    r = adrun(NP, MAXR, CRASH, order, vals['t0'], vals['dt'], vals['Tend'], vals['dmin'], vals['dmax'], vals['x'], floats=list(es))
+    pv = []
+    for l in r['log']:
+        pv.append(0.9 * float(l['dt']) * (1.0 / float(l['e'])) ** (1.0 / order) if l['dtn'] is not None and l['e'] is not None else None)
+    g = adrun_clauses(r, _FOps, NP, MAXR, CRASH, order, vals['t0'], vals['dt'], vals['Tend'], vals['dmin'], vals['dmax'], vals['x'], pvars=pv)
+    return {k for k, v in g.items() if not v}
+
+
 def finalize(rep):
     hs = rep.extra.get('histories_by_config', [])
     if hs:
@@ -1119,6 +1390,10 @@ def replay(path):
     elif t[0] == 'adapt_conv':
         bad = adapt_conv_concrete(t[1], d['order'], d['iter'], d['restart_at_maxiter'], d['vals'], d.get('decisions', ()))
         print('violated on the real class:', bad)
+    elif t[0] == 'adrun':
+        bad = adrun_float(t[1], t[2], t[3], t[5], d['vals'], d['estimates'])
+        print('clauses violated on the real float run:', sorted(bad))
+        bad = bool(bad)
     elif t[0] == 'lim':
         v = d['vals']
         L = SimpleNamespace(status=SimpleNamespace(dt_new=v['dtn']), params=SimpleNamespace(dt=v['dt']))
